@@ -36,6 +36,8 @@ def run(ck):
     ck.assumptions += ['torch.func.jacrev returns the Jacobian (PyTorch contract) for product / Lpq / sum-power kernels: their values are checked numerically only',
                        'tolerance 1e-7 relative (float64); finite differences 2e-3 relative']
     ck.check_theorems()
+    from harness import gradops
+    gradops.check_translation(ck)
     mp.mp.dps = 60
     rng = np.random.default_rng(ck.seed + 404)
     kinds = ['l2', 'l2_light', 'l1', 'lpq', 'sum_power']
